@@ -93,6 +93,46 @@ theorem c08_jsV_arrOf_inv (R S) (sz : SizeOpts) (s : PyVal) (hs : dictOrNone s =
       simpa [optKw, jsKws, kw, kwOf, kwOfStr, kwNode] using hitems
   | _ => simp [typeIs] at hty'
 
+/-! ### inverting the map keywords -/
+
+/-- `Map[String, X]` (unconstrained key, no size bounds): what the schema admits is an object all of
+    whose member values the value schema admits -/
+theorem c08_jsV_mapOf_inv (R S) (k : FieldDecl) (s : PyVal) (hs : dictOrNone s = true)
+    (hk : mapKeyPattern k = "") (v : PyVal)
+    (h : jsV R S (.dict (mapKws (some k) (some s) {})) v = true) :
+    ∃ kvs, v = .dict kvs ∧ kvs.all (fun kv => jsV R S s kv.2) = true := by
+  have href : getKw "$ref" (mapKws (some k) (some s) {}) = none := by
+    simp [mapKws, hk, getKw_append, getKw_optKw, getKw, kw, keyIs]
+  rw [jsV_dict _ _ _ _ href] at h
+  have hctx1 : memberNames "properties" (mapKws (some k) (some s) {}) = [] := by
+    simp [memberNames, mapKws, hk, getKw_append, getKw_optKw, getKw, kw, keyIs]
+  have hctx2 : memberNames "patternProperties" (mapKws (some k) (some s) {}) = [] := by
+    simp [memberNames, mapKws, hk, getKw_append, getKw_optKw, getKw, kw, keyIs]
+  revert h
+  suffices hh : ∀ ctx, memberNames "properties" ctx = [] → memberNames "patternProperties" ctx = [] →
+      jsKws R S ctx (mapKws (some k) (some s) {}) v = true →
+      ∃ kvs, v = .dict kvs ∧ kvs.all (fun kv => jsV R S s kv.2) = true from hh _ hctx1 hctx2
+  intro ctx hctx1 hctx2 h
+  simp only [mapKws, hk, jsKws_append, and_true_iff'] at h
+  obtain ⟨⟨⟨hty, haddl⟩, _⟩, _⟩ := h
+  have hty' : typeIs "object" v = true := by
+    simpa [jsKws, kw, kwOf, kwOfStr, kwNode, kwLeaf, typeOk] using hty
+  cases v with
+  | dict kvs =>
+    refine ⟨kvs, rfl, ?_⟩
+    have hx : extraMembers S ctx kvs = kvs := by
+      unfold extraMembers
+      rw [hctx1, hctx2]
+      apply List.filter_eq_self.mpr
+      intro kv _
+      cases docKey kv.1 <;> simp
+    have : (extraMembers S ctx kvs).all (fun kv => jsV R S s kv.2) = true := by
+      cases s <;> simp [dictOrNone] at hs <;>
+        simpa [jsKws, kw, kwOf, kwOfStr, kwNode] using haddl
+    rw [hx] at this
+    exact this
+  | _ => simp [typeIs] at hty'
+
 /-! ### elements -/
 
 theorem c08_exact_items (O : Oracles) (opts : DeserOpts) (f : FieldDecl) (P : PyVal → Prop)
